@@ -37,7 +37,7 @@ def gen_strip_bodies(rnd, n):
 
     out = []
     for i in range(n):
-        k = i % 6
+        k = i % 9
         a, b, c = (rnd.choice(atoms) for _ in range(3))
         if k == 0:
             s = wrap(a) + ";"
@@ -49,9 +49,40 @@ def gen_strip_bodies(rnd, n):
             s = a + " " + wrap(b) + "; " + c
         elif k == 4:
             s = "{ " + wrap(wrap(wrap(a) + ";") + "; " + b) + "; }"
-        else:
+        elif k == 5:
             s = a + " " + b  # nothing to strip
+        elif k == 6:
+            s = "if (e)" + wrap(a) + "; else " + wrap(b) + ";"          # glued to the closing parenthesis of the head
+        elif k == 7:
+            s = "for (i = 0; i < 2; i++)" + wrap(a) + "; " + wrap(b) + ";"
+        else:
+            out.append("insn(T%d, {%s;%s;})" % (i, wrap(a), wrap(b)))      # directly behind the opening brace / a semicolon
+            continue
         out.append("insn(T%d, { %s })" % (i, s))
+    return out
+
+
+def gen_defs(rnd, macros, n):
+    """generated instruction definitions: invocations of bundled macros (nested, as arguments, glued to the
+    closing parenthesis of a statement head, behind a label, at the start of the body)"""
+    fn = sorted(m for m, v in macros.items() if v["fn"] and m[0] == "f" and len(v["params"]) <= 4 and "#" not in v["body"])
+    small = [m for m in fn if len(macros[m]["body"]) <= 25]     # nested invocations: small bodies (argument pre-expansion is repeated per use)
+    wrapped = [m for m in fn if macros[m]["body"][:2] == ["do", "{"]]
+    args = ["RsV", "RtV", "RdV", "riV", "(RsV+1)", "EA", "PuV", "RxV", "(7)"]
+
+    def inv(depth, pool):
+        m = rnd.choice(pool)
+        a = [inv(depth - 1, small) if depth > 0 and rnd.random() < 0.25 else rnd.choice(args) for _ in macros[m]["params"]]
+        return "%s(%s)" % (m, ",".join(a))
+
+    forms = ["{ %s; }", "{ if (RsV)%s; }", "{ if (RsV) %s; else %s; }", "{%s;%s; }", "{ for (i = 0; i < 2; i++)%s; }", "{ RdV = 1; %s; %s; }",
+             "{ if (PuV) { %s; } %s; }", "{ %s; {%s;} }"]
+    out = []
+    for i in range(n):
+        f = forms[i % len(forms)]
+        k = f.count("%s")
+        pool = wrapped if wrapped and i % 2 == 0 else fn
+        out.append("DEF_SHORTCODE(GEN_%d, %s)" % (i, f % tuple(inv(1, pool) for _ in range(k))))
     return out
 
 
@@ -104,18 +135,22 @@ def run(ctx):
     try:
         strip_texts = gen_strip_bodies(rnd, 120 if ctx.tier == "quick" else 1500)
         patchsets = gen_patchsets(rnd, 60 if ctx.tier == "quick" else 600)
-        out, err = drive({"strip": strip_texts, "patchsets": patchsets, "regenerate": True}, scratch)
-        if out is None:
-            ctx.violation("the preprocessing functions cannot be driven: " + err, {"kind": "driver"})
-            return ctx.finish("model_checking", {"states": 1, "transitions": 1, "traces_validated_against_impl": 0, "samples": ["driver failed"]})
-        items = []
-        # (1) bundled data: every definition expanded by the specification under the bundled patched table
         pre = os.path.join(impl.REPO, "Resources/Hexagon/Preprocessor")
         macros = {}
         for line in open(os.path.join(pre, "macros_patched.h")).read().split("\n"):
             pd = cpptok.parse_define(line)
             if pd:
                 macros[pd[0]] = pd[1]     # a later definition of the same name replaces the earlier one
+        gen_defs_lines = gen_defs(rnd, macros, 120 if ctx.tier == "quick" else 1600)
+        import time
+        t0 = time.time()
+        out, err = drive({"strip": strip_texts, "patchsets": patchsets, "regenerate": True, "extra_shortcode": gen_defs_lines}, scratch)
+        if out is None:
+            ctx.violation("the preprocessing functions cannot be driven: " + err, {"kind": "driver"})
+            return ctx.finish("model_checking", {"states": 1, "transitions": 1, "traces_validated_against_impl": 0, "samples": ["driver failed"]})
+        t_drive = time.time() - t0
+        items = []
+        # (1) bundled data: every definition expanded by the specification under the bundled patched table
         defs = [l.rstrip("\n") for l in open(os.path.join(pre, "shortcode.h")) if l.startswith("DEF_SHORTCODE(")]
         resolved = {}
         for l in open(os.path.join(pre, "shortcode_resolved.h")):
@@ -139,6 +174,8 @@ def run(ctx):
         sel = list(zip(names, defs))
         if ctx.tier == "quick":
             rnd.shuffle(sel)
+            # the expansion in TLC is quadratic in the line length: the 5% longest lines (HVX multiplies, > 800 tokens) are left to thorough
+            sel = [x for x in sel if x[0] in resolved and len(resolved[x[0]]) < 6000]
             keep = [x for x in sel if "##" in x[1]][:10] + sel[:220]
             sel = keep
         for nm, dl in sel:
@@ -171,6 +208,18 @@ def run(ctx):
             def body_lines(t):
                 return [l.rstrip() for l in t.split("\n") if l.strip() and not l.startswith("#")]
             a = body_lines(out["regen"]["resolved"])
+            # the generated definitions: each must come out, under its name, as standard preprocessing + stripping gives it
+            gen_res = {}
+            for l in a:
+                if l.startswith("insn(GEN_"):
+                    gen_res[l[len("insn("):].split(",", 1)[0]] = l
+            a = [l for l in a if not l.startswith("insn(GEN_")]
+            for gi, dl in enumerate(gen_defs_lines):
+                nm = "GEN_%d" % gi
+                if nm not in gen_res:
+                    ctx.violation("generated definition %s has no resolved line: %s" % (nm, dl), {"kind": "gen-lost", "def": dl})
+                else:
+                    items.append({"id": "gen-" + nm, "kind": "resolve", "src": cpptok.tokens(dl), "res": cpptok.tokens(gen_res[nm]), "text": dl})
             b = body_lines(open(os.path.join(pre, "shortcode_resolved.h")).read())
             if a != b:
                 k = next((i for i in range(min(len(a), len(b))) if a[i] != b[i]), min(len(a), len(b)))
@@ -181,7 +230,9 @@ def run(ctx):
         tf = os.path.join(scratch, "tv.json")
         slim = [{k: v for k, v in it.items() if k not in ("text", "set")} for it in items]
         json.dump({"macros": macros, "items": slim}, open(tf, "w"))
+        t1 = time.time()
         v = tlc.run("Cpp.tla", "Cpp.cfg", env={"TV_FILE": tf}, tags=("CPREPORT",), timeout=6000)
+        t_tlc = time.time() - t1
         if v.states < 2 * len(items):
             raise tlc.TLCError("Cpp.tla did not consume all items:\n" + v.out[-3000:])
         byid = {it["id"]: it for it in items}
@@ -206,11 +257,12 @@ def run(ctx):
             "states": v.states, "transitions": v.transitions, "traces_validated_against_impl": len(items) + 2,
             "evaluations": len(items), "distinct_nontrivial": len(items),
             "rule": "items = %d bundled definitions expanded by Cpp.tla (Prosser's algorithm, hide sets, ##) under the bundled patched macro table and "
-                    "compared token-wise with the bundled resolved line after do-while(0) stripping; %d generated bodies with nested / sequential "
+                    "compared token-wise with the bundled resolved line after do-while(0) stripping; %d generated definitions (bundled macros nested, "
+                    "glued to statement heads) through the real pipeline in the scratch copy; %d generated bodies with nested / sequential "
                     "wrappers and look-alike identifiers through replace_do_while_0; the bundled and %d generated macro/patch sets through "
                     "patch_macros; one regeneration of the whole pipeline in a scratch copy compared with the bundled files" % (
-                        sum(1 for i in items if i["kind"] == "resolve"), len(strip_texts), len(patchsets)),
-            "samples": [{"id": items[0]["id"], "src": " ".join(items[0]["src"])[:200]}], "macro_table_size": len(macros), "exhaustive": ctx.tier == "thorough",
+                        sum(1 for i in items if i["id"].startswith("res-")), len(gen_defs_lines), len(strip_texts), len(patchsets)),
+            "samples": [{"id": items[0]["id"], "src": " ".join(items[0]["src"])[:200]}], "macro_table_size": len(macros), "notes": ["real preprocessing functions %.1fs, TLC %.1fs" % (t_drive, t_tlc)], "exhaustive": ctx.tier == "thorough",
         }
         return ctx.finish("model_checking", cov, ["'standard C preprocessing' = the subset the bundled macro files use (no #, no variadic macros)",
                                                   "the pp-tokeniser (harness/front/cpptok.py) is a projection function"])
